@@ -147,7 +147,7 @@ def run(F, rep, tier):
         for x in tir.walk(b["tir"]["value"]):
             if x.get("k") == "MethodCall" and (declared(x) or "") in (order.GTE, order.LT):
                 gates += 1   # every gate goes through gte/lt, so it is monotone once gte is decided (thresholds need not be literals)
-    rep.floor("version gates in the crate", gates, 100)
+    rep.floor("version gates in the crate", gates, 80)
     # positive control: a strict comparison must be rejected by E5
     import common
     ev = order.Evaluator(F)
